@@ -1,6 +1,87 @@
-(* C14 — Optic transformation: typing ingredients, per-generator reverse derivatives for ALL inputs, chain rule. PARTIAL: the statement for every circuit (C14Thm.C14_full) is not a theorem — see DESIGN.md; it is decided on generated circuits by the correspondence check and an independent reverse-mode oracle.
+(* C14 — Optic transformation: well-typed for every diagram (optic image and adapted form, under the documented contract of the component functors), every generator's reverse derivative for ALL inputs, chain rule. PARTIAL: the derivative statement for every circuit and preservation of composition/tensor (C14Thm.C14_full) are not theorems — decided on generated circuits by the correspondence check and an independent reverse-mode oracle.
    Property theorems only: each statement is spelled out and closed by [exact] of a lemma proved in Proofs/. *)
-From OHG Require Import Proofs.C14Thm.
+From OHG Require Import Proofs.C14Thm Proofs.C14bThm Proofs.HarnessThm.
+
+Theorem C14_type : forall B : Prims.Backend,
+       Backend.BackendOK B ->
+       forall (O1 A1 O2 A2 : Type) (eqO2 : O2 -> O2 -> bool),
+       (forall x y : O2, eqO2 x y = true <-> x = y) ->
+       forall (P : Functor.optic O1 A1 O2 A2) (f : Hyper.ohg O1 A1) (sA sB : list O1),
+       optic_contract P ->
+       Plain.wf_ohg f ->
+       Plain.src_type (Plain.abs f) = List.map Some sA ->
+       Plain.tgt_type (Plain.abs f) = List.map Some sB ->
+       exists (h : Hyper.ohg O2 A2) (oa ob : IC.ic (list O2)),
+         Functor.optic_map_arrow B eqO2 P f = Res.Ok h /\
+         Plain.wf_ohg h /\
+         Functor.optic_map_object P sA = Res.Ok oa /\
+         Functor.optic_map_object P sB = Res.Ok ob /\
+         Plain.src_type (Plain.abs h) = List.map Some (IC.ic_values oa) /\
+         Plain.tgt_type (Plain.abs h) = List.map Some (IC.ic_values ob).
+Proof. exact (@C14bThm.C14_type). Qed.
+
+Theorem C14_adapt_type : forall B : Prims.Backend,
+       Backend.BackendOK B ->
+       forall (O1 A1 O2 A2 : Type) (eqO2 : O2 -> O2 -> bool),
+       (forall x y : O2, eqO2 x y = true <-> x = y) ->
+       forall (P : Functor.optic O1 A1 O2 A2) (c : Hyper.ohg O2 A2) (a b : list O1) (oa ob : IC.ic (list O2)),
+       optic_contract P ->
+       Plain.wf_ohg c ->
+       Functor.optic_map_object P a = Res.Ok oa ->
+       Functor.optic_map_object P b = Res.Ok ob ->
+       Plain.src_type (Plain.abs c) = List.map Some (IC.ic_values oa) ->
+       Plain.tgt_type (Plain.abs c) = List.map Some (IC.ic_values ob) ->
+       exists (d : Hyper.ohg O2 A2) (fa fb ra rb : IC.ic (list O2)),
+         Functor.sf_map_object (Functor.op_fwd P) a = Res.Ok fa /\
+         Functor.sf_map_object (Functor.op_fwd P) b = Res.Ok fb /\
+         Functor.sf_map_object (Functor.op_rev P) a = Res.Ok ra /\
+         Functor.sf_map_object (Functor.op_rev P) b = Res.Ok rb /\
+         Functor.optic_adapt B eqO2 P c a b = Res.Ok d /\
+         Plain.wf_ohg d /\
+         Plain.src_type (Plain.abs d) = List.map Some (IC.ic_values fa ++ IC.ic_values rb) /\
+         Plain.tgt_type (Plain.abs d) = List.map Some (IC.ic_values fb ++ IC.ic_values ra).
+Proof. exact (@C14bThm.C14_adapt_type). Qed.
+
+Theorem C14_adapted_type : forall B : Prims.Backend,
+       Backend.BackendOK B ->
+       forall (O1 A1 O2 A2 : Type) (eqO2 : O2 -> O2 -> bool),
+       (forall x y : O2, eqO2 x y = true <-> x = y) ->
+       forall (P : Functor.optic O1 A1 O2 A2) (f : Hyper.ohg O1 A1) (sA sB : list O1),
+       optic_contract P ->
+       Plain.wf_ohg f ->
+       Plain.src_type (Plain.abs f) = List.map Some sA ->
+       Plain.tgt_type (Plain.abs f) = List.map Some sB ->
+       exists (h d : Hyper.ohg O2 A2) (fa fb ra rb : IC.ic (list O2)),
+         Functor.optic_map_arrow B eqO2 P f = Res.Ok h /\
+         Functor.optic_adapt B eqO2 P h sA sB = Res.Ok d /\
+         Functor.sf_map_object (Functor.op_fwd P) sA = Res.Ok fa /\
+         Functor.sf_map_object (Functor.op_fwd P) sB = Res.Ok fb /\
+         Functor.sf_map_object (Functor.op_rev P) sA = Res.Ok ra /\
+         Functor.sf_map_object (Functor.op_rev P) sB = Res.Ok rb /\
+         Plain.wf_ohg h /\
+         Plain.wf_ohg d /\
+         Plain.src_type (Plain.abs d) = List.map Some (IC.ic_values fa ++ IC.ic_values rb) /\
+         Plain.tgt_type (Plain.abs d) = List.map Some (IC.ic_values fb ++ IC.ic_values ra).
+Proof. exact (@C14bThm.C14_adapted_type). Qed.
+
+Theorem C14_map_operations_defined_typed : forall B : Prims.Backend,
+       Backend.BackendOK B ->
+       forall (O1 A1 O2 A2 : Type) (eqO2 : O2 -> O2 -> bool),
+       (forall x y : O2, eqO2 x y = true <-> x = y) ->
+       forall (P : Functor.optic O1 A1 O2 A2) (ops : IC.operations O1 A1),
+       optic_contract P ->
+       wf_ops ops ->
+       exists (c : Hyper.ohg O2 A2) (oa ob : IC.ic (list O2)),
+         Functor.optic_map_operations B eqO2 P ops = Res.Ok c /\
+         Plain.wf_ohg c /\
+         Functor.optic_map_object P (IC.ic_values (IC.ops_a ops)) = Res.Ok oa /\
+         Functor.optic_map_object P (IC.ic_values (IC.ops_b ops)) = Res.Ok ob /\
+         Plain.src_type (Plain.abs c) = List.map Some (IC.ic_values oa) /\
+         Plain.tgt_type (Plain.abs c) = List.map Some (IC.ic_values ob).
+Proof. exact (@C14bThm.C14_map_operations_defined_typed). Qed.
+
+Theorem C14_contract_satisfiable : forall (O1 A O2 : Type) (F R : O1 -> list O2) (M : A -> list O2), optic_contract (free_optic F R M).
+Proof. exact (@C14bThm.free_optic_has_contract). Qed.
 
 Theorem C14_map_object : forall (O1 A1 O2 A2 : Type) (P : Functor.optic O1 A1 O2 A2) (a : list O1) 
          (fa ra : IC.ic (list O2)) (n : nat),
@@ -75,22 +156,6 @@ Theorem C14_partial_dagger_type : forall (O2 A2 : Type) (c : Hyper.ohg O2 A2) (f
          List.firstn nfb (Plain.tgt_type (Plain.abs c)) ++ List.skipn nfa (Plain.src_type (Plain.abs c)).
 Proof. exact (@C14Thm.C14_partial_dagger_type). Qed.
 
-Theorem C14_partial_dagger_typed : forall (O2 A2 : Type) (c : Hyper.ohg O2 A2) (fa fb ra rb : IC.ic (list O2)) (FA RB FB RA : list O2),
-       Plain.wf_ohg c ->
-       length FA = length (IC.ic_values fa) ->
-       length RB = length (IC.ic_values rb) ->
-       length FB = length (IC.ic_values fb) ->
-       length RA = length (IC.ic_values ra) ->
-       Plain.src_type (Plain.abs c) = List.map Some (FA ++ RB) ->
-       Plain.tgt_type (Plain.abs c) = List.map Some (FB ++ RA) ->
-       exists d : Hyper.ohg O2 A2,
-         Functor.partial_dagger c fa fb ra rb = Res.Ok d /\
-         Plain.wf_ohg d /\
-         Hyper.o_h d = Hyper.o_h c /\
-         Plain.src_type (Plain.abs d) = List.map Some (FA ++ RA) /\
-         Plain.tgt_type (Plain.abs d) = List.map Some (FB ++ RB).
-Proof. exact (@C14Thm.C14_partial_dagger_typed). Qed.
-
 Theorem C14_generator_adapted_value : (poly_adapted T_add = Res.Ok D_add /\ good_circuit D_add) /\
        (poly_adapted T_mul = Res.Ok D_mul /\ good_circuit D_mul) /\
        (poly_adapted T_neg = Res.Ok D_neg /\ good_circuit D_neg) /\
@@ -110,17 +175,17 @@ Theorem C14_generator_types : (has_type (poly_image T_add) (2 + 2) (1 + 1) /\ ha
 Proof. exact (@C14Thm.C14_generator_types). Qed.
 
 Theorem C14_generator_derivative_add : forall x y dz : BinNums.Z,
-       in64 x ->
-       in64 y ->
-       in64 dz ->
+       C14Thm.in64 x ->
+       C14Thm.in64 y ->
+       C14Thm.in64 dz ->
        poly_run D_add (x :: y :: dz :: nil) =
        Res.Ok (Some (BinInt.Z.modulo (BinInt.Z.add x y) Dispatch.two64 :: dz :: dz :: nil)).
 Proof. exact (@C14Thm.C14_generator_derivative_add). Qed.
 
 Theorem C14_generator_derivative_mul : forall x y dz : BinNums.Z,
-       in64 x ->
-       in64 y ->
-       in64 dz ->
+       C14Thm.in64 x ->
+       C14Thm.in64 y ->
+       C14Thm.in64 dz ->
        poly_run D_mul (x :: y :: dz :: nil) =
        Res.Ok
          (Some
@@ -130,8 +195,8 @@ Theorem C14_generator_derivative_mul : forall x y dz : BinNums.Z,
 Proof. exact (@C14Thm.C14_generator_derivative_mul). Qed.
 
 Theorem C14_generator_derivative_neg : forall x dz : BinNums.Z,
-       in64 x ->
-       in64 dz ->
+       C14Thm.in64 x ->
+       C14Thm.in64 dz ->
        poly_run D_neg (x :: dz :: nil) =
        Res.Ok
          (Some
@@ -140,18 +205,19 @@ Theorem C14_generator_derivative_neg : forall x dz : BinNums.Z,
 Proof. exact (@C14Thm.C14_generator_derivative_neg). Qed.
 
 Theorem C14_generator_derivative_copy : forall x da db : BinNums.Z,
-       in64 x ->
-       in64 da ->
-       in64 db ->
+       C14Thm.in64 x ->
+       C14Thm.in64 da ->
+       C14Thm.in64 db ->
        poly_run D_copy (x :: da :: db :: nil) =
        Res.Ok (Some (x :: x :: BinInt.Z.modulo (BinInt.Z.add da db) Dispatch.two64 :: nil)).
 Proof. exact (@C14Thm.C14_generator_derivative_copy). Qed.
 
-Theorem C14_generator_derivative_discard : forall x : BinNums.Z, in64 x -> poly_run D_discard (x :: nil) = Res.Ok (Some (BinNums.Z0 :: nil)).
+Theorem C14_generator_derivative_discard : forall x : BinNums.Z,
+       C14Thm.in64 x -> poly_run D_discard (x :: nil) = Res.Ok (Some (BinNums.Z0 :: nil)).
 Proof. exact (@C14Thm.C14_generator_derivative_discard). Qed.
 
 Theorem C14_generator_derivative_const : forall (c : nat) (dz : BinNums.Z),
-       in64 dz ->
+       C14Thm.in64 dz ->
        poly_run (D_const c) (dz :: nil) =
        Res.Ok (Some (BinInt.Z.modulo (BinInt.Z.of_nat c) Dispatch.two64 :: nil)).
 Proof. exact (@C14Thm.C14_generator_derivative_const). Qed.
@@ -193,7 +259,7 @@ Theorem C14_generator_derivative : (forall x y dz : BinNums.Z,
 Proof. exact (@C14Thm.C14_generator_derivative). Qed.
 
 Theorem C14_partial_generators : forall (g n m : nat) (s : Hyper.ohg nat nat),
-       poly_arity g = Some (n, m) ->
+       C14Thm.poly_arity g = Some (n, m) ->
        Hyper.ohg_singleton g (List.repeat 0 n) (List.repeat 0 m) = Res.Ok s ->
        derivative_statement s n m (gen_sem g) (gen_jac g).
 Proof. exact (@C14Thm.C14_full_generators). Qed.
@@ -242,11 +308,23 @@ Theorem C14_composite_poly : forall x y dz : BinNums.Z,
                      :: nil) (dz :: nil)))).
 Proof. exact (@C14Thm.C14_composite_poly). Qed.
 
+Theorem C14_poly_components_meet_contract : forall a : nat, optic_image_ok Dispatch.poly_optic a (poly_src a) (poly_tgt a).
+Proof. exact (@HarnessThm.poly_optic_contract). Qed.
+
+Theorem C14_poly_images_monogamous_acyclic : forall a : nat,
+       good_circuit (Dispatch.poly_fwd a (poly_src a) (poly_tgt a)) /\
+       good_circuit (Dispatch.poly_rev a (poly_src a) (poly_tgt a)).
+Proof. exact (@HarnessThm.poly_images_good). Qed.
+
+Print Assumptions C14_type.
+Print Assumptions C14_adapt_type.
+Print Assumptions C14_adapted_type.
+Print Assumptions C14_map_operations_defined_typed.
+Print Assumptions C14_contract_satisfiable.
 Print Assumptions C14_map_object.
 Print Assumptions C14_interleave.
 Print Assumptions C14_interleave_panic_iff.
 Print Assumptions C14_partial_dagger_type.
-Print Assumptions C14_partial_dagger_typed.
 Print Assumptions C14_generator_adapted_value.
 Print Assumptions C14_generator_types.
 Print Assumptions C14_generator_derivative_add.
@@ -261,3 +339,5 @@ Print Assumptions C14_lens_chain_rule_seq.
 Print Assumptions C14_lens_chain_rule_par.
 Print Assumptions C14_composite_square.
 Print Assumptions C14_composite_poly.
+Print Assumptions C14_poly_components_meet_contract.
+Print Assumptions C14_poly_images_monogamous_acyclic.
